@@ -1113,6 +1113,9 @@ RUNSAFE = {
     "mesh_overflow_warning": lambda r, D, noisy: ["float", r.choice([3.0, 4.0])],
     "min_failed_poll_steps": lambda r, D, noisy: ["int", r.randint(2, 6)],
     "stobads": lambda r, D, noisy: ["bool", r.random() < 0.5],
+    "n_search_iter": lambda r, D, noisy: ["int", r.choice([2, 3, 4])],
+    "es_start": lambda r, D, noisy: ["float", r.choice([0.25, 0.5])],
+    "n_search": lambda r, D, noisy: ["int", r.choice([64, 256])],
     # a user-supplied jitter for a DETERMINISTIC target (the code fills noise_size in only when it is None)
     "noise_size": lambda r, D, noisy: (["none"] if noisy else ["float", r.choice([1e-3, 0.5, 2.0])]),
 }
@@ -1131,6 +1134,8 @@ def t2_gen_multi(rng, idx, runs):
             names = rng.sample(sorted(RUNSAFE), rng.randint(0, 6)) + rng.sample(UNREAD, rng.randint(0, 3))
             if not noisy and rng.random() < 0.5 and "noise_size" not in names:
                 names.append("noise_size")
+            if rng.random() < 0.5 and "n_search_iter" not in names:
+                names.append("n_search_iter")          # >= 3 generations: the evolution strategy adapts its step size during the run
             specs = [[k, (RUNSAFE[k](rng, Ds[i], noisy) if k in RUNSAFE else gen_value(rng, k, i * 100 + j + 1, Ds[i]))]
                      for j, k in enumerate(names)]
             specs += [["display", ["str", "off"]], ["max_fun_evals", ["int", rng.randint(45, 60) if noisy else rng.randint(15, 25)]]]
